@@ -205,6 +205,21 @@ ADV_STRINGS = ["(1/0)x <= 1", "x <= (1/0)", "1e999x <= 1", "x <= 1e999", "(1e308
 
 
 @st.composite
+def _const_expr_string(draw):
+    """a constraint string whose constant arithmetic contains zeros in arbitrary positions (divisions by zero anywhere in a chain)"""
+    n = draw(st.integers(2, 5))
+    muldiv_only = draw(st.booleans())
+    parts = [str(draw(st.sampled_from([0, 1, 2, 3, 4, 6])))]
+    for _ in range(n - 1):
+        parts.append(draw(st.sampled_from(["/", "/", "*"] if muldiv_only else ["/", "/", "*", "+", "-"])))
+        nxt = draw(st.sampled_from(["0", "1", "2", "3", "2", "4", "(3-3)", "(1-1)", "0.0", "(2*0)"]))
+        parts.append(nxt)
+    expr = "(" + "".join(parts) + ")"
+    form = draw(st.sampled_from(["%sx <= 1", "x <= %s", "%s*x + y <= 1", "%s|x| <= 2", "x + y >= %s", "%s(x + y) <= 3", "x = %s"]))
+    return form % expr
+
+
+@st.composite
 def _adv_terms(draw, pool, nmax=3):
     out = []
     for _ in range(draw(st.integers(0, nmax))):
@@ -228,11 +243,11 @@ def _adv_terms(draw, pool, nmax=3):
 def _adv(draw):
     pool = gens.NAMES[:draw(st.integers(1, 4))]
     op = draw(st.sampled_from(["simplify", "refines", "is_empty", "contains", "elim", "elim", "optimize", "compose", "quotient", "merge",
-                               "rename", "parse", "copy-roundtrip", "construct"]))
+                               "rename", "parse", "parse", "parse", "copy-roundtrip", "construct"]))
     case = {"part": "A", "src": "ADV", "op": op, "pool": pool, "t1": draw(_adv_terms(pool)), "t2": draw(_adv_terms(pool)),
             "elim": draw(st.lists(st.sampled_from(pool), min_size=1, max_size=len(pool), unique=True)),
             "refine": draw(st.booleans()), "simplify": draw(st.booleans()), "order": draw(gens.order_s()),
-            "string": draw(st.sampled_from(ADV_STRINGS)), "var": draw(st.sampled_from(pool + ["unknown"]))}
+            "string": draw(st.one_of(st.sampled_from(ADV_STRINGS), _const_expr_string())), "var": draw(st.sampled_from(pool + ["unknown"]))}
     if op in ("compose", "quotient", "merge", "rename", "optimize", "construct", "copy-roundtrip"):
         ins = pool[:max(1, len(pool) // 2)]
         outs = pool[len(ins):] or ["o"]
